@@ -10,6 +10,7 @@ CLASSES = {
     "PDAG": {"mro": ["PDAG", "DiGraph"], "file": "pgmpy/base/DAG.py"},
     "BayesianNetwork": {"mro": ["BayesianNetwork", "DAG", "DiGraph"], "file": "pgmpy/models/BayesianNetwork.py"},
     "UndirectedGraph": {"mro": ["UndirectedGraph", "Graph"], "file": "pgmpy/base/UndirectedGraph.py"},
+    "Independencies": {"mro": ["Independencies"], "file": "pgmpy/independencies/Independencies.py"},
     "IndependenceAssertion": {"mro": ["IndependenceAssertion"], "file": "pgmpy/independencies/Independencies.py"},
     "MarkovNetwork": {"mro": ["MarkovNetwork", "UndirectedGraph", "Graph"], "file": "pgmpy/models/MarkovNetwork.py"},
     "Graph": {"mro": ["Graph"], "file": None},
